@@ -11,7 +11,7 @@
 (*    they are judged by ManifTrace!Verdict unchanged, i.e. "Jet primal =  *)
 (*    model value" and "AD Jacobian = model Jacobian" (the C05 definition).*)
 (*  - "jetcmp": the same call next to its run over double: primal parts    *)
-(*    within 4u, AD Jacobian against the analytic Jacobian reported by the *)
+(*    within 2^10 u, AD Jacobian against the analytic Jacobian of the    *)
 (*    same operation at finite-difference grade (unit aware).              *)
 (*  - "functor": Ceres{Manifold,LocalParameterization,Objective,Constraint}*)
 (*    Functor driven through raw pointers into guarded buffers, T = double *)
@@ -24,14 +24,21 @@ EXTENDS ManifTrace
 
 SAT == 2000000000
 \* Agreement of two runs of the SAME closed forms in the same precision (Jet primal vs double, functor vs
-\* member function): 2^6 u per unit of scale.  Not bit-identity and not 4u, by analysis of the unchanged
-\* tree: (i) Eigen evaluates quaternion products / norms of double with vectorised kernels that associate
-\* differently from the generic kernels used for a Jet scalar (a few u); (ii) ceres::Jet divides as
-\* f*(1/g) (1.5u per division); (iii) at the small-angle switch-over theta^2 = eps = 100 eps_mach the two
-\* runs may take different branches because theta^2 itself differs by an ulp -- the branches differ by
-\* the library's own approximation error eps/8 ~ 28u (measured: 25u in SO3 lplus at the "at_sw" cell,
-\* <= 10u everywhere else).  A dropped term or a derivative-stripping cast shows up at >= 1e-10.
-UAgree(ev) == FMulInt(UOf(ev), 64)
+\* member function): WORKING PRECISION 2^10 u per unit of scale (DESIGN.md 2.5), not bit-identity and not
+\* the 4u first planned, by analysis of the unchanged tree:
+\*  (i)   Eigen evaluates quaternion products / norms of double with vectorised kernels that associate
+\*        differently from the generic kernels used for a Jet scalar, and ceres::Jet divides as f*(1/g):
+\*        a few u at the source (measured <= 10 u*scale on well-conditioned inputs);
+\*  (ii)  at the small-angle switch-over theta^2 = eps = 100 eps_mach the two runs may take different
+\*        branches because theta^2 itself differs by an ulp; the branches differ by the library's own
+\*        approximation error eps/8 ~ 28u (measured: 25u in SO3 lplus at the "at_sw" cell);
+\*  (iii) the few-u differences of (i) are amplified by the conditioning of the closed forms: ~u/theta^2 in
+\*        the SGal3 blocks (measured 74u at theta = 0.1), ~u/(pi-theta) in V^-1 next to pi (measured 270u at
+\*        pi-theta = 4e-3; beyond 1e-3 this exceeds 2^10 u and is the finding KF-C12-NEARPI-PRIMAL).
+\* Two valid evaluations of one formula cannot be asked to agree better than the formula is conditioned;
+\* how well it is conditioned is decided by C02..C04.  What C12 must catch here -- a value path through a
+\* narrower type, a Constants<Jet> with another threshold, a dropped term -- shows up at >= 1e-11.
+UAgree(ev) == WPOf(ev)
 
 FieldMax(ev, f) == IF Has(ev, f) THEN VMaxAbs(DV(ev[f])) ELSE Z
 \* magnitude scale of an event: 1 or the largest coefficient among operands and results
@@ -139,8 +146,17 @@ JVerdict(ev) ==
     [] ev.e = "fltcmp"  -> FltCmpItems(ev)
     [] OTHER            -> Verdict(ev)
 
+\* floor(log2 |pi - theta|) for rotation magnitudes in (2, pi + 2^-30]: as ManifTrace!GapClass, but a logarithm
+\* that comes out as pi or an ulp above it (element built at pi exactly) still belongs to the region next to pi
+JGapClass(ev) ==
+  LET t == ClassTangent(ev) IN
+  IF Len(t) = 0 THEN 99999
+  ELSE LET th == Theta(ev.g, t)   gp == FAbs(FSub(Pi, th)) IN
+       IF FLt(FInt(2), th) /\ FLe(th, FAdd(Pi, FPow2(-30)))
+       THEN (IF FLt(gp, FPow2(-60)) THEN -60 ELSE FLog2(gp)) ELSE 99999
+
 JNext == /\ l <= Len(Tr)
          /\ l' = l + 1
-         /\ PrintT(ToJson(<<"V", l, ThetaClass(Tr[l]), LinClass(Tr[l]), GapClass(Tr[l]), JVerdict(Tr[l])>>))
+         /\ PrintT(ToJson(<<"V", l, ThetaClass(Tr[l]), LinClass(Tr[l]), JGapClass(Tr[l]), JVerdict(Tr[l])>>))
 JSpec == Init /\ [][JNext]_l
 =============================================================================
